@@ -236,19 +236,8 @@ func (c *Controller[R]) unsafeInsertNewRegion(
 	return r
 }
 
-func (c *Controller[R]) remove(r *region[R]) {
-	c.mu.Lock()
-	defer c.mu.Unlock()
-	// Re-check that the region is still empty. Between the caller's
-	// r.Unlock() and this c.mu.Lock(), a concurrent OpenGate may have
-	// added a new gate. If so, skip removal — the region will be
-	// cleaned up when the new gate(s) are eventually released.
-	r.RLock()
-	hasGates := len(r.gates) > 0
-	r.RUnlock()
-	if hasGates {
-		return
-	}
+// unsafeRemove removes r from the controller. The caller must hold c.mu.
+func (c *Controller[R]) unsafeRemove(r *region[R]) {
 	for i, reg := range c.regions {
 		if reg == r {
 			c.regions = slices.Delete(c.regions, i, i+1)
